@@ -382,7 +382,8 @@ def a64_op_text(op, v=0):
     if pre:
         return "[%s, #16]!" % b
     if post:
-        return "[%s], #16" % b
+        # post-index by an immediate or (LD1/ST1 family) by a register: both are post-indexed addressing
+        return "[%s], #16" % b if v % 3 else "[%s], x12" % b
     s = "[" + b
     if ho:
         s += ", #8"
